@@ -1,0 +1,12 @@
+//go:build verif
+
+package utils
+
+// Contracts checked by /verif/engine (govc). Comment-only file: no code is compiled from it.
+
+// C02: the label-flow analysis runs on every parsed query; its unchecked type assertions must not fail for any
+// valid PromQL syntax tree (a string argument may be wrapped in parentheses).
+//@ func walkAggregation [C02]
+//@   safe type-assert
+//@ func parsePromQLFunc [C02]
+//@   safe type-assert
